@@ -34,4 +34,16 @@ CheckFun(e) ==
      ELSE IF \E f \in 1..3 : s.flt[f] # -1 /\ ~RowOK(row(f), x.units[f], FilterGrid(fl[s.flt[f] + 1], R, s.rw, s.F), R) THEN "filtered_row_not_filter_weights"
      ELSE "ok"
 
+\* The same scenario as a problem with its FIRST objective only (one objective, no constraint, an explicit weight other
+\* than one): the objective value is unchanged and the single weight normalises to one.
+CheckOne(e) ==
+  LET s == Scen(e)
+      x == Eval(s)
+  IN IF e.outcome \notin {"ok", "toofew", "nofunctions", "allnan"} THEN "internal_exception"
+     ELSE IF x.st # "ok" \/ x.res[1].st # "val" THEN "ok"
+     ELSE IF e.outcome # "ok" THEN "functions_not_reported"
+     ELSE IF s.est[1] = "mean" /\ ~ObsEq(e.obj[1], x.res[1].q) THEN "mean_value"
+     ELSE IF s.est[1] = "std" /\ ~(ObsEq(e.obj[1], x.res[1].q) /\ ~e.stdneg[1]) THEN "stddev_value"
+     ELSE IF s.est[1] = "mean" /\ ~ObsEq(e.wobj, x.res[1].q) THEN "weighted_objective"
+     ELSE "ok"
 =============================================================================
